@@ -28,23 +28,29 @@
        to a directory under (or leading to) a rule's directory;
    (5) every sub-map and handle records its containing map and its name.
 
-   Proved for all cases: (1), the freshness part of (2), and (5) - together
-   with the invariant behind them: on every well-formed input the model of
-   the populator keeps the C11 store invariant and none of its steps fails
-   (no AttributeError / IndexError in the conflict test, every key exists).
-   Missing: the "exactly one handle per accepted file" part of (2), (3) and
-   (4); they need a path-level refinement between the C11 store and the
-   per-key columns (uniqueness of paths in the store, frame lemmas for
-   __setitem__ along a path) that was not carried out. *)
+   Proved for all cases (theorem below): (1), (2) and (5) - together with
+   the invariant behind them: on every well-formed input the model of the
+   populator keeps the C11 store invariant and none of its steps fails (no
+   AttributeError / IndexError in the conflict test, every key exists); the
+   factory calls of the model are, rule by rule, the accepted files of the
+   sequence glob returned, hence (wf_b: that sequence is a permutation of
+   the tree; known_b = false: nothing is hidden) of the tree.
+   Missing: (3) and (4).  They need a path-level refinement between the C11
+   store (a graph of objects) and the per-key columns of the observed tree
+   (uniqueness of paths in the store, frame lemmas for __setitem__ along a
+   path, and the absence of file/directory key clashes from wf_b); it was
+   not carried out.  (3) and (4) are nevertheless evaluated by holds_b on
+   every observed case, and the model (accepts) is compared with the whole
+   observed tree, so a violation of (3)/(4) by the code is reported. *)
 From Coq Require Import ZArith List Bool String.
-From Desper Require Import Lib.Alist Tree.C11Model Tree.C16Model Tree.C16Proofs.
+From Desper Require Import Lib.Alist Tree.C11Model Tree.C16Model Tree.C16Proofs Tree.C16Log Tree.C16Main.
 Import ListNotations.
 Open Scope Z_scope.
 
 Theorem C16_population_mirrors_tree_partial :
   forall c : C16_case, wf_b c = true -> known_b c = false -> accepts c = true ->
                        holds_core_b c = true.
-Proof. intros c Hwf _ Hacc. exact (accepts_core c Hwf Hacc). Qed.
+Proof. intros c Hwf Hk Hacc. exact (accepts_core c Hwf Hk Hacc). Qed.
 Print Assumptions C16_population_mirrors_tree_partial.
 
 (* the proved part is a sub-conjunction of the property *)
@@ -58,7 +64,9 @@ Print Assumptions C16_core_is_part_of_holds.
 Theorem C16_entry_never_fails :
   forall tbl root nest trim r n0 st e,
     PInv st -> LogOK n0 st -> p_exc st = XNone -> entry_key tbl root trim e <> None ->
-    PInv (pop_entry tbl root nest trim r st e) /    LogOK n0 (pop_entry tbl root nest trim r st e) /    p_exc (pop_entry tbl root nest trim r st e) = XNone.
+    PInv (pop_entry tbl root nest trim r st e) /\
+    LogOK n0 (pop_entry tbl root nest trim r st e) /\
+    p_exc (pop_entry tbl root nest trim r st e) = XNone.
 Proof. exact pop_entry_ok. Qed.
 Print Assumptions C16_entry_never_fails.
 
@@ -76,7 +84,7 @@ Proof. vm_compute. auto. Qed.
 
 (* observed with directory names trimmed as well *)
 Example C16_trimmed_directory_rejected :
-  let c := CASE16 [("gfx"%string,0); ("a"%string,1); ("sub"%string,2); ("b"%string,3); ("b.txt"%string,4); ("a.png"%string,5); ("a.txt"%string,6)] [(CALL [""%string; "tmp"%string; "cfs26_e8q"%string; "r0"%string] [(R ["gfx"%string] [] 1); (R ["nowhere"%string] [] 2)] None (Some true) None None [(TDir [(E KDir [""%string; "tmp"%string; "cfs26_e8q"%string; "r0"%string; "gfx"%string]); (E KFile [""%string; "tmp"%string; "cfs26_e8q"%string; "r0"%string; "gfx"%string; "a.png"%string]); (E KFile [""%string; "tmp"%string; "cfs26_e8q"%string; "r0"%string; "gfx"%string; "a.txt"%string]); (E KDir [""%string; "tmp"%string; "cfs26_e8q"%string; "r0"%string; "gfx"%string; "sub"%string]); (E KFile [""%string; "tmp"%string; "cfs26_e8q"%string; "r0"%string; "gfx"%string; "sub"%string; "b.txt"%string])]); TMissing] [[(E KDir [""%string; "tmp"%string; "cfs26_e8q"%string; "r0"%string; "gfx"%string; ""%string]); (E KFile [""%string; "tmp"%string; "cfs26_e8q"%string; "r0"%string; "gfx"%string; "a.png"%string]); (E KDir [""%string; "tmp"%string; "cfs26_e8q"%string; "r0"%string; "gfx"%string; "sub"%string]); (E KFile [""%string; "tmp"%string; "cfs26_e8q"%string; "r0"%string; "gfx"%string; "sub"%string; "b.txt"%string]); (E KFile [""%string; "tmp"%string; "cfs26_e8q"%string; "r0"%string; "gfx"%string; "a.txt"%string])]; []] XNone [(0, ([""%string; "tmp"%string; "cfs26_e8q"%string; "r0"%string; "gfx"%string; "a.png"%string], 1)); (1, ([""%string; "tmp"%string; "cfs26_e8q"%string; "r0"%string; "gfx"%string; "sub"%string; "b.txt"%string], 1)); (2, ([""%string; "tmp"%string; "cfs26_e8q"%string; "r0"%string; "gfx"%string; "a.txt"%string], 1))] (ONode [[]] [(0,(ONode [[(1,2)]; [(1,0)]] [(2,(ONode [[(3,1)]] [] true))] true))] true)); (CALL [""%string; "tmp"%string; "cfs26_e8q"%string; "r0"%string] [(R ["gfx"%string; "sub"%string] [".txt"%string] 3)] None None (Some false) None [(TDir [(E KDir [""%string; "tmp"%string; "cfs26_e8q"%string; "r0"%string; "gfx"%string; "sub"%string]); (E KFile [""%string; "tmp"%string; "cfs26_e8q"%string; "r0"%string; "gfx"%string; "sub"%string; "b.txt"%string])])] [[(E KDir [""%string; "tmp"%string; "cfs26_e8q"%string; "r0"%string; "gfx"%string; "sub"%string; ""%string]); (E KFile [""%string; "tmp"%string; "cfs26_e8q"%string; "r0"%string; "gfx"%string; "sub"%string; "b.txt"%string])]] XNone [(3, ([""%string; "tmp"%string; "cfs26_e8q"%string; "r0"%string; "gfx"%string; "sub"%string; "b.txt"%string], 3))] (ONode [[]] [(0,(ONode [[(1,2)]; [(1,0)]] [(2,(ONode [[(3,1); (4,3)]] [] true))] true))] true))] in
+  let c := CASE16 [("gfx"%string,0); ("d"%string,1); ("d.x"%string,2); ("b"%string,3); ("b.txt"%string,4)] [(CALL [""%string; "tmp"%string; "ct0px31j9"%string; "r0"%string] [(R ["gfx"%string] [] 1)] None (Some true) None None [(TDir [(E KDir [""%string; "tmp"%string; "ct0px31j9"%string; "r0"%string; "gfx"%string]); (E KDir [""%string; "tmp"%string; "ct0px31j9"%string; "r0"%string; "gfx"%string; "d.x"%string]); (E KFile [""%string; "tmp"%string; "ct0px31j9"%string; "r0"%string; "gfx"%string; "d.x"%string; "b.txt"%string])])] [[(E KDir [""%string; "tmp"%string; "ct0px31j9"%string; "r0"%string; "gfx"%string; ""%string]); (E KDir [""%string; "tmp"%string; "ct0px31j9"%string; "r0"%string; "gfx"%string; "d.x"%string]); (E KFile [""%string; "tmp"%string; "ct0px31j9"%string; "r0"%string; "gfx"%string; "d.x"%string; "b.txt"%string])]] XNone [(0, ([""%string; "tmp"%string; "ct0px31j9"%string; "r0"%string; "gfx"%string; "d.x"%string; "b.txt"%string], 1))] (ONode [[]] [(0,(ONode [[]] [(1,(ONode [[]] [] true)); (2,(ONode [[(3,0)]] [] true))] true))] true))] in
   wf_b c = true /\ known_b c = false /\ accepts c = false /\ holds_b c = false.
 Proof. vm_compute. auto. Qed.
 
